@@ -62,7 +62,7 @@ def judge(case, ctx):
 def draw(rng, alg):
     x = rng.random()
     if x < 0.45:
-        cls = rng.choice(["random", "threshold", "equal", "toosmall", "planted"])
+        cls = rng.choice(["random", "threshold", "equal", "toosmall", "planted", "widerange"])
         Cs, v = gen.cover_instance(rng, cls, nmax=rng.choice([6, 9, 12]))
         return {"kind": "cover", "alg": alg, "C": Cs, "values": gen.arrange(rng, v, rng.choice(gen.ORDERS)), "cls": "small/" + cls, "pres": "list", "pres_seed": 0}
     if x < 0.85:
